@@ -59,6 +59,23 @@ pub fn eval(ctx: &mut Ctx, c: &EncCase, tag: &str) {
             }
         }
     }
+    // the same symbol read as text: header and trailer are re-created, the body is ISO-8859-1 (no ECI was written)
+    if should {
+        let body = &x[7..x.len() - 2];
+        if body.iter().all(|b| crate::refimpl::charset::latin1_printable_char(*b as char)) {
+            let want: String = x.iter().map(|b| *b as char).collect();
+            match guard(|| datamatrix::data::decode_str(&e.data)) {
+                Err(p) => return ctx.violation("decode_panic", &case(), p),
+                Ok(Err(err)) => return ctx.violation("decode_error", &case(), format!("decode_str on the compacted symbol: {:?}", err)),
+                Ok(Ok(out)) => {
+                    if out != want {
+                        return ctx.violation("decoded_bytes_differ", &case(), format!("decode_str returns {:?}..., expected the ISO-8859-1 reading of the input", out.chars().take(24).collect::<String>()));
+                    }
+                    ctx.count("compacted.read_as_text_ok");
+                }
+            }
+        }
+    }
     ctx.count(&format!("workload.{}", tag));
     if (hdr05 || hdr06) && !envelope {
         ctx.count("near_miss.header_without_trailer");
@@ -126,6 +143,32 @@ pub fn eval_str(ctx: &mut Ctx, c: &EncCase, tag: &str) {
 }
 
 pub fn run(ctx: &mut Ctx) {
+    // envelopes at the capacity limit: the re-created header and trailer make the decoded message longer than any
+    // symbol's own capacity in characters; and envelopes with upper-half Latin-1 bodies (read back as bytes and text)
+    {
+        let mut k = 0usize;
+        for head in [MACRO05, MACRO06] {
+            for blen in [2000usize, 3090, 3100, 3107, 3108, 3109, 3110, 3111, 3112, 3113, 3114] {
+                for list in ["default", "Square144", "all"] {
+                    if ctx.mine(k) {
+                        let body: Vec<u8> = (0..blen).map(|i| b'0' + ((i * 3 + k) % 10) as u8).collect();
+                        let input = [head, &body[..], TRAIL].concat();
+                        eval(ctx, &EncCase { input, list: list.into(), mask: 63, macros: true, fnc1: false, eci: None, order: 0, prelude: 0, skipdef: false, entry: (k % 3) as u8 }, "envelopes_at_the_capacity_limit");
+                    }
+                    k += 1;
+                }
+            }
+            for body in [&b"Gr\xfc\xdfe"[..], b"12\xa3", b"\xc3\xa9", b"1PABC Q\xc2\xb5m", b"\xa0\xff", b"\xe9\xe9\xe9\xe9\xe9\xe9\xe9\xe9\xe9\xe9"] {
+                for macros in [true, false] {
+                    if ctx.mine(k) {
+                        let input = [head, body, TRAIL].concat();
+                        eval(ctx, &EncCase { input, list: "default".into(), mask: 63, macros, fnc1: false, eci: None, order: 0, prelude: 0, skipdef: false, entry: (k % 3) as u8 }, "envelopes_with_latin1_bodies");
+                    }
+                    k += 1;
+                }
+            }
+        }
+    }
     // exhaustive: all strings of length 0..=L over pieces {head05, head06, trail, RS, EOT, 'A', '1'} glued as tokens
     let toks: [&[u8]; 8] = [MACRO05, MACRO06, TRAIL, b"\x1e", b"\x04", b"A", b"1", b"[)>"];
     let depth = if ctx.is_thorough() { 5 } else { 4 };
